@@ -203,8 +203,27 @@ def _plain(x):
     return str(x)
 
 
+_POISON = None
+
+
+def poison():
+    """own the content of uninitialised memory: NumPy keeps freed small blocks in a per-size cache and hands them out again (np.empty, and
+    any buffer the library forgets to fill, then shows whatever the previous owner left there - usually zeros left by the library itself, so the
+    slip stays invisible until unrelated work has run in between).  Before every library call the harness allocates and frees NaN-filled arrays
+    of the sizes the library works with, so that an element that is returned without having been written is a NaN, deterministically."""
+    global _POISON
+    import numpy as np
+    if _POISON is None:
+        _POISON = () if os.environ.get('VERIF_NOPOISON') else (3, 4, 6, 9, 16, 36)
+    for n in _POISON:
+        a = np.full(n, np.nan)
+        b = np.full(n, np.nan)
+        del a, b
+
+
 def call(f, *a, **k):
     """run library code; return (True, value) or (False, exception)"""
+    poison()
     try:
         return True, f(*a, **k)
     except HarnessError:
